@@ -501,7 +501,7 @@ func init() {
 	fw.Register(&fw.Check{
 		ID:    "C20",
 		Level: "model_checking",
-		Rule:  "(a) every history of length 3 (quick) / 4 (thorough) after an initial start over {restart with the same accessories, restart with changed values only, restart with an added accessory, restart with another setup code, real pair-setup of a new controller, remove a pairing, add a new pairing and add an existing pairing again through /pairings on a verified connection, application value changes} on one storage directory with the real transport; after EVERY event the advertised TXT records and the store are compared with the reference model: device id and long-term key constant (a stored controller still verifies against the original accessory key), pairings = model set, c# +1 exactly when the structure differs from the previous run, sf=1 ⇔ no controller pairing. plus a sweep over 240 structurally different accessory sets (restart same ⇒ c# unchanged, other ⇒ +1, again ⇒ unchanged). (b) ALL 10^8 eight-digit codes and all ≈12 million strings of length ≤9 over {0,9,a,-,space,non-ASCII digit}: ValidatePin accepts exactly the non-trivial eight-digit codes and formats XXX-XX-XXX; for all 10^8 codes (category 5, IP flag) and for all 256 categories × 16 flag sets × 7 setup ids × 7 boundary codes an independent base-36 decoder recovers code, category, flags and setup id from XHMURI. states = restart histories executed The alphabet also has the removal of a pairing that is not stored; every history of length 2 over four symbols is repeated in storage directories named "Lamp [1]", "Bridge [attic" and "a*b?". Plus, in a subprocess built with a scheduling point before EVERY statement of hc's packages (textual insertion through go build -overlay): every interleaving with at most 1 (thorough 2) preemptions of pairs of operations on disjoint objects — and, where the property is about served requests, of pairs of handlers on two verified connections of one accessory touching different characteristics — each side must observe exactly what it observes when the two run one after the other (module-level mutable state is what makes them differ).",
+		Rule:  "(a) every history of length 3 (quick) / 4 (thorough) after an initial start over {restart with the same accessories, restart with changed values only, restart with an added accessory, restart with another setup code, real pair-setup of a new controller, remove a pairing, add a new pairing and add an existing pairing again through /pairings on a verified connection, application value changes} on one storage directory with the real transport; after EVERY event the advertised TXT records and the store are compared with the reference model: device id and long-term key constant (a stored controller still verifies against the original accessory key), pairings = model set, c# +1 exactly when the structure differs from the previous run, sf=1 ⇔ no controller pairing. plus a sweep over 240 structurally different accessory sets (restart same ⇒ c# unchanged, other ⇒ +1, again ⇒ unchanged). (b) ALL 10^8 eight-digit codes and all ≈12 million strings of length ≤9 over {0,9,a,-,space,non-ASCII digit}: ValidatePin accepts exactly the non-trivial eight-digit codes and formats XXX-XX-XXX; for all 10^8 codes (category 5, IP flag) and for all 256 categories × 16 flag sets × 7 setup ids × 7 boundary codes an independent base-36 decoder recovers code, category, flags and setup id from XHMURI. states = restart histories executed The alphabet also has the removal of a pairing that is not stored; every history of length 2 over four symbols is repeated in storage directories named 'Lamp [1]', 'Bridge [attic' and 'a*b?'. Plus, in a subprocess built with a scheduling point before EVERY statement of hc's packages (textual insertion through go build -overlay): every interleaving with at most 1 (thorough 2) preemptions of pairs of operations on disjoint objects — and, where the property is about served requests, of pairs of handlers on two verified connections of one accessory touching different characteristics — each side must observe exactly what it observes when the two run one after the other (module-level mutable state is what makes them differ).",
 		Run:   c20Run,
 		Replay: func(c *fw.Ctx, raw json.RawMessage) {
 			var cc c20CodeCase
